@@ -1,3 +1,5 @@
+#[path = "../deep.rs"]
+mod deep;
 fn main() {
-    chumsky_verif_harness::deep::main();
+    deep::main();
 }
